@@ -127,6 +127,20 @@ def enums_only_tree():
     return spec
 
 
+def lonely_optional_length_tree():
+    """Types whose only optional member is a trailing `<length optional="true"/>` (no array, no other optional
+    field in the same generated module): what the class body's annotations need must be imported by the module
+    itself, whichever member asked for it."""
+    E = S.Enum
+    spec = S.parse({k: "<protocol>\n</protocol>\n" for k in ("", "map", "net", "net/client", "net/server", "pub", "pub/server")})
+    spec.files["net"].enums += [E("PacketFamily", "byte", [("Talk", 1, None), ("Init", 255, None)]), E("PacketAction", "byte", [("Tell", 1, None), ("Init", 255, None)])]
+    spec.files["pub"].structs.append(S.Struct("Tail", [S.Field("kind", "char"), S.Length("extra_size", "short", 0, True)]))
+    spec.files[""].structs.append(S.Struct("Stub", [S.Field("name", "string", length=4, padded=True), S.Length("rest_count", "char", 1, True)]))
+    spec.files["net/server"].packets.append(S.Packet("Talk", "Tell", [S.Field("x", "char"), S.Length("n", "three", 0, True)]))
+    spec.files["net/client"].packets.append(S.Packet("Talk", "Tell", [S.Field("x", "char")]))
+    return spec
+
+
 class _Relabel:
     """Every violation on the case-collision tree is the known finding, whatever its symptom."""
 
@@ -142,7 +156,7 @@ class _Relabel:
 
 def shards(tier, seed):
     out = []
-    for ti in [-1, 2000, 3000, 3001, 3002, 3003] + list(range(TREES[tier])) + [1000 + k for k in range(N_COLLISION[tier])]:
+    for ti in [-1, 2000, 3000, 3001, 3002, 3003, 3004] + list(range(TREES[tier])) + [1000 + k for k in range(N_COLLISION[tier])]:
         for part in range(4):
             out.append({"tree": ti, "part": part, "parts": 4})
     return out
@@ -182,6 +196,9 @@ def run(shard, rec, tier, seed):
     elif ti == 3003:
         spec = enums_only_tree()
         rec.count("trees-that-need-nothing-from-the-library")
+    elif ti == 3004:
+        spec = lonely_optional_length_tree()
+        rec.count("trees-with-a-lone-optional-length")
     elif ti == 2000:
         spec = cross_tree()
         rec.count("cross-reference-trees")
